@@ -5,6 +5,8 @@ import (
 	"go/token"
 	"go/types"
 
+	"verif/internal/core"
+
 	"verif/third_party/xtools/go/ssa"
 )
 
@@ -12,10 +14,11 @@ import (
 // literal of structs, built once in straight-line code and then only indexed
 // (typically by a range loop): tbl[Index].Field.
 type tableRef struct {
-	Alloc *ssa.Alloc    // the backing array
-	Index ssa.Value     // the row selector at the use
-	Field int           // field number within the row struct
-	Rows  [][]ssa.Value // Rows[k][f]: what row k holds in field f (nil: zero value)
+	Alloc  *ssa.Alloc    // the backing array (local table)
+	Global *ssa.Global   // the variable (package-level table)
+	Index  ssa.Value     // the row selector at the use
+	Field  int           // field number within the row struct
+	Rows   [][]ssa.Value // Rows[k][f]: what row k holds in field f (nil: zero value)
 }
 
 // structTableField resolves v as tbl[i].f for a local literal table, or
@@ -25,7 +28,7 @@ type tableRef struct {
 //	v = *(&a.f)   with a a local whose only store is *(&s[i]), s = slice T[:]
 //	v = *(&(&s[i]).f)
 //	v = (*(&s[i])).f                     (ssa.Field of a loaded row)
-func structTableField(v ssa.Value) *tableRef {
+func structTableField(p *core.Prog, v ssa.Value) *tableRef {
 	var fld int
 	var row ssa.Value // address of the row: IndexAddr, or a local copy
 	switch x := v.(type) {
@@ -76,10 +79,37 @@ func structTableField(v ssa.Value) *tableRef {
 		arr, _ = b.X.(*ssa.Alloc)
 	case *ssa.Alloc:
 		arr = b
+	case *ssa.UnOp:
+		// a package-level table: a slice variable set once, by the package
+		// initialiser, from a literal, and only read afterwards
+		if g, ok := b.X.(*ssa.Global); ok && b.Op == token.MUL {
+			if rows := globalStructRows(p, g); rows != nil {
+				return &tableRef{Global: g, Index: ia.Index, Field: fld, Rows: rows}
+			}
+		}
+		return nil
 	}
 	if arr == nil {
 		return nil
 	}
+	rows := localStructRows(arr, false)
+	if rows == nil {
+		return nil
+	}
+	return &tableRef{Alloc: arr, Index: ia.Index, Field: fld, Rows: rows}
+}
+
+// same reports whether two references select a row of the same table with
+// the same selector.
+func (t *tableRef) same(u *tableRef) bool {
+	return t.Alloc == u.Alloc && t.Global == u.Global && t.Index == u.Index
+}
+
+// localStructRows reads the rows of an array of structs that is filled element
+// by element with constant indices in the block that creates it and afterwards
+// only read (sliced whole, indexed, ranged over). With escapes set, one store
+// of the whole-array slice (into the package-level variable) is accepted.
+func localStructRows(arr *ssa.Alloc, escapes bool) [][]ssa.Value {
 	at, ok := arr.Type().Underlying().(*types.Pointer).Elem().Underlying().(*types.Array)
 	if !ok || at.Len() == 0 || at.Len() > 64 {
 		return nil
@@ -159,6 +189,10 @@ func structTableField(v ssa.Value) *tableRef {
 						return nil
 					}
 				case *ssa.Range, *ssa.DebugRef:
+				case *ssa.Store:
+					if _, isG := u.Addr.(*ssa.Global); !escapes || !isG || u.Val != ssa.Value(r) {
+						return nil
+					}
 				default:
 					return nil
 				}
@@ -173,7 +207,87 @@ func structTableField(v ssa.Value) *tableRef {
 			return nil
 		}
 	}
-	return &tableRef{Alloc: arr, Index: ia.Index, Field: fld, Rows: rows}
+	return rows
+}
+
+var globalRows = map[*ssa.Global][][]ssa.Value{}
+
+func globalStructRows(p *core.Prog, g *ssa.Global) [][]ssa.Value {
+	if rows, ok := globalRows[g]; ok {
+		return rows
+	}
+	globalRows[g] = nil
+	if g.Pkg == nil {
+		return nil
+	}
+	init := g.Pkg.Func("init")
+	if init == nil {
+		return nil
+	}
+	var rows [][]ssa.Value
+	fns := append([]*ssa.Function{init}, p.SrcFuncs()...)
+	seen := map[*ssa.Function]bool{}
+	var rands []*ssa.Value
+	for _, fn := range fns {
+		if seen[fn] {
+			continue
+		}
+		seen[fn] = true
+		for _, b := range fn.Blocks {
+			for _, in := range b.Instrs {
+				uses := false
+				rands = in.Operands(rands[:0])
+				for _, r := range rands {
+					if *r == ssa.Value(g) {
+						uses = true
+					}
+				}
+				if !uses {
+					continue
+				}
+				switch x := in.(type) {
+				case *ssa.Store:
+					sl, ok := x.Val.(*ssa.Slice)
+					if !ok || fn != init || x.Addr != ssa.Value(g) || rows != nil {
+						return nil
+					}
+					arr, ok := sl.X.(*ssa.Alloc)
+					if !ok || sl.Low != nil || sl.High != nil || sl.Max != nil {
+						return nil
+					}
+					if rows = localStructRows(arr, true); rows == nil {
+						return nil
+					}
+				case *ssa.UnOp:
+					if x.Op != token.MUL {
+						return nil
+					}
+					for _, ref := range *x.Referrers() {
+						switch u := ref.(type) {
+						case *ssa.IndexAddr:
+							for _, r3 := range *u.Referrers() {
+								if !isRead(r3) {
+									return nil
+								}
+							}
+						case *ssa.Call:
+							if bi, ok := u.Call.Value.(*ssa.Builtin); !ok || bi.Name() != "len" {
+								return nil
+							}
+						case *ssa.Range, *ssa.DebugRef:
+						default:
+							return nil
+						}
+					}
+				case *ssa.DebugRef:
+				default:
+					return nil
+				}
+			}
+		}
+	}
+	globalRows[g] = rows
+	return rows
 }
 
 func isRead(in ssa.Instruction) bool {
